@@ -18,7 +18,7 @@ RULE = ("Action in {R,W,RW,RW1C,RW1S,4 reserved}, shape in unsigned(0-9)/signed(
         "width 1..3 (thorough: ..4). Distinct = canonical JSON.")
 BUDGET = {"quick": (16, 250), "thorough": (16, 6000)}
 ESSENTIAL = ["a:R", "a:W", "a:RW", "a:RW1C", "a:RW1S", "reserved", "shape:enum", "shape:flag",
-             "shape:s", "tie", "partial_update", "init_nonzero"]
+             "shape:s", "shape:arr", "shape:struct", "width>64", "tie", "partial_update", "init_nonzero"]
 ASSUMPTIONS = [
     "signals are driven/read as raw bit patterns (enum-shaped signals through Value.cast)",
     "init values are legal members for enum shapes",
@@ -73,8 +73,10 @@ def check(spec, stats):
     m = (1 << w) - 1
     stats.label("a:" + a if not a.startswith("Res") else "reserved")
     stats.label("shape:" + s[0])
+    stats.label("width>64", w > 64)
     act = gens.make_field(leaf).create()
-    init = gens.init_value(s, leaf["init"]) & m if (a in STORAGE and leaf.get("init") is not None) else 0
+    init = gens.init_value(s, leaf.get("init") or 0) & m if (a in STORAGE and (leaf.get("init") is not None
+                                                                           or s[0] in ("arr", "struct"))) else 0
     if a in STORAGE:
         if init:
             stats.label("init_nonzero")
